@@ -426,6 +426,65 @@ def run_trees(seeds, corpus=()):
     return trees, codes
 
 
+def scan_duplicates(seeds):
+    """the parallel scan of a freshly written tree (import graphs of every kind: a module reached from two
+    places in one round - diamonds, two statements, two conftests) against the single-analysis state: no
+    definition and no usage of any file may be recorded twice.  -> (number of trees, failures)"""
+    h1, _ = core.build_harness()
+    base = os.path.realpath(tempfile.mkdtemp(prefix="verif_scan_"))
+    bad, cases, metas = [], [], []
+    try:
+        for i, seed in enumerate(seeds):
+            tree = Tree(random.Random(seed)).build()
+            case_dir = os.path.join(base, "c%d" % i)
+            for rel, text in tree.files.items():
+                p = os.path.join(case_dir, rel)
+                os.makedirs(os.path.dirname(p), exist_ok=True)
+                with open(p, "w", newline="") as f:
+                    f.write(text.replace("@CASE@", case_dir))
+            # the same helper module re-exported by two nested conftests (relative and absolute spelling)
+            shared = os.path.join(case_dir, "ws", "shared_two")
+            os.makedirs(os.path.join(case_dir, "ws", "twice_pkg"), exist_ok=True)
+            os.makedirs(shared, exist_ok=True)
+            open(os.path.join(shared, "__init__.py"), "w").write("")
+            open(os.path.join(shared, "fx.py"), "w").write(FX % ("", "twice_a", "") + FX % ("", "twice_b", ""))
+            cf = os.path.join(case_dir, "ws", "conftest.py")
+            open(cf, "a").write("\nfrom shared_two.fx import *\n")
+            open(os.path.join(case_dir, "ws", "twice_pkg", "conftest.py"), "w").write("from ..shared_two.fx import *\nfrom ..shared_two.fx import twice_a\n")
+            open(os.path.join(case_dir, "ws", "twice_pkg", "test_twice.py"), "w").write("def test_t(twice_a, twice_b):\n    pass\n")
+            for link, target in tree.meta.get("symlinks", []):
+                if not os.path.lexists(os.path.join(case_dir, link)):
+                    os.symlink(os.path.join(case_dir, target), os.path.join(case_dir, link))
+            cases.append({"id": i, "ops": [{"op": "scan", "path": os.path.join(case_dir, "ws")}, {"op": "dump"}]})
+            metas.append((tree, case_dir))
+        obs, _ = core.run_h1(h1, cases, "scan_dups", allow_hang=True)
+        for i, (tree, case_dir) in enumerate(metas):
+            o = obs.get(i)
+            if o is None or o.get("hang") or not isinstance(o["obs"][1], dict):
+                continue
+            d = o["obs"][1]
+            seen, dups = set(), []
+            for name, ds in d["definitions"]:
+                for x in ds:
+                    k = (name, x["path"], x["line"], x["start"])
+                    if k in seen:
+                        dups.append({"definition": name, "file": x["path"][len(case_dir) + 1:], "line": x["line"]})
+                    seen.add(k)
+            seen = set()
+            for p_, us in d["usages"]:
+                for u in us:
+                    k = (p_, u["name"], u["line"], u.get("start"))
+                    if k in seen:
+                        dups.append({"usage": u["name"], "file": p_[len(case_dir) + 1:], "line": u["line"]})
+                    seen.add(k)
+            if dups:
+                bad.append({"why": "after scan_workspace of a fresh tree the index holds records twice (a sequential single analysis of each file holds each once)",
+                            "recorded_twice": dups[:8], "files": {k: v for k, v in tree.files.items() if k.startswith("ws/") and ".venv" not in k}, "tags": tree.tags})
+    finally:
+        shutil.rmtree(base, ignore_errors=True)
+    return len(metas), bad
+
+
 def load_corpus():
     out = []
     for p in sorted(glob.glob(os.path.join(core.VERIF, "gen", "corpus", PID, "*.json"))):
@@ -456,6 +515,10 @@ def run(r):
         hseen.add(b["why"])
         r.violation(dict({"property": PID, "part": "handlers"}, **b), "h2_%d" % len(hseen))
     r.notes.append("handler part: %s" % json.dumps({k: v for k, v in hstats.items() if k in ("workspaces", "workspace_symbol", "document_symbol")}))
+    ndup, dup_bad = scan_duplicates(seeds[:30 if quick else 200])
+    for k, b in enumerate(dup_bad[:2]):
+        r.violation(dict({"property": PID, "part": "scan-duplicates", "seed": r.seed}, **b), "dup_%d" % k)
+    r.notes.append("scan part: %d freshly scanned trees checked for records held twice (%d with duplicates)" % (ndup, len(dup_bad)))
     del HANGS[:]
     trees, codes = run_trees(seeds, corpus)
     listed = runner.listed_classes(PID, CLASS_BITS)
